@@ -153,6 +153,8 @@ _ARR_RE = re.compile(r"^(f32|f64|f|r32|r64|i16|i32|i64|i|u16|u32|u8|bool)\[(.*)\
 def parse_type(t):
     """-> ('int'|'float'|'bool'|'str'|'bv',w) | ('arr', dt, ndim) | ('flist', n) | ('func', target) | ('obj',) | ('tuple', [...])"""
     if isinstance(t, dict):
+        if "@attrs" in t:
+            return ("objattrs", t["@attrs"])
         if "vars" in t or "coords" in t or "attrs" in t or "sizes" in t:
             return ("ds", t)
         return ("dict", t)
